@@ -228,6 +228,8 @@ CFG_ALPHABET = [
     ("ctor_bad", cdesc(tdesc(8, True), tdesc(8, True, "TENSORWISE", "FLOAT"), "INTEGER", False)),
     ("ctor_bad2", cdesc(tdesc(8, True), tdesc(8, True), "FLOAT", False)),
     ("block", cdesc(None, tdesc(4, True, "BLOCKWISE", "INT", 32), "FLOAT", True)),
+    ("wo4_blocksize", cdesc(None, tdesc(4, True, "CHANNELWISE", "INT", 32), "FLOAT", True)),
+    ("srq_blocksize", cdesc(tdesc(8, False, "TENSORWISE", "INT", 16), tdesc(8, True, "TENSORWISE", "INT", 0), "INTEGER", False)),
 ]
 OP_ALPHABET = ["*", "FULLY_CONNECTED", "CONV_2D", "ADD", "SOFTMAX", "EMBEDDING_LOOKUP", "INPUT", "OUTPUT", "BATCH_MATMUL", "CUSTOM_OP", "RESHAPE"]
 ALG_ALPHABET = ["min_max_uniform_quantize", "float_casting", "no_quantize", "bogus_alg"]
